@@ -68,6 +68,16 @@ let chop_trunc x =
 let dec_of_int i =
   Z.mul i coq_P18
 
+(** val dadd : coq_Z -> coq_Z -> coq_Z **)
+
+let dadd =
+  Z.add
+
+(** val dsub : coq_Z -> coq_Z -> coq_Z **)
+
+let dsub =
+  Z.sub
+
 (** val dmul : coq_Z -> coq_Z -> coq_Z **)
 
 let dmul a b =
@@ -97,6 +107,11 @@ let dquo_trunc a b =
 
 let dquo_up a b =
   chop_round_up (Z.quot (Z.mul a coq_P36) b)
+
+(** val dquo_int : coq_Z -> coq_Z -> coq_Z **)
+
+let dquo_int =
+  Z.quot
 
 (** val dtrunc_int : coq_Z -> coq_Z **)
 
